@@ -587,6 +587,11 @@ def judge_c19(case, side, res):
 
 def judge_c17(case, side, res):
     v = base_types_judge(case, side, res)
+    tg = (res or {}).get("ty_grammar")
+    if tg and int(tg.split("/")[2]) > 0:
+        # a parsed annotation inside the theorem's grammar on which the theorem's conclusion does not evaluate to true
+        v["corr_ok"] = False
+        v["why"] = "Spec/TyParse: conclusion of C17_accepts_every_inhabitant fails on an in-grammar annotation (%s)" % tg
     ctx = types_ctx(case, side, res)
     v["relevant"] = False
     if not ctx:
